@@ -684,6 +684,16 @@ func (m *Module) judge(w *engine.World, f *feed, pv *pendingValue, data string) 
 	if len(pv.outputs) > 1 {
 		w.Hit("oraclefeed.batch_several_valid_responses")
 	}
+	if pv.fn == "avg" {
+		distinct := map[string]bool{}
+		for _, o := range pv.outputs {
+			distinct[o] = true
+		}
+		if len(distinct) >= 3 {
+			// the order of a float64 summation can show here (C11)
+			w.Hit("oraclefeed.avg_batch_three_distinct_answers")
+		}
+	}
 	if pv.ex.ambiguous {
 		// a valid response without a JSON number at the path: the property's sentence about the
 		// aggregate does not say how it counts (ignored, zero, true = 1, "12.5" = 12.5 ...); only
